@@ -179,6 +179,9 @@ pub struct Plan {
     /// with a connection timeout configured: the client goes silent before request index k (k = n: after the last)
     pub timeout_before: Option<usize>,
     pub timeout_configured: bool,
+    /// with a connection timeout configured: the client pauses for longer than the timeout at this byte
+    /// offset, which lies strictly inside a request (the request must still be served normally)
+    pub pause_at: Option<usize>,
 }
 
 pub struct Outcome {
@@ -209,7 +212,7 @@ pub fn check_case(s: &mut Stats, seq: &[R], plan: &Plan, serve: &(dyn Fn(&[R], &
     let o = serve(seq, plan);
     let ctx = |what: String| {
         json!({"runtime": rt, "what": what, "requests": seq.iter().map(|r| r.label()).collect::<Vec<_>>(), "cuts": if plan.cuts.len() > 12 { json!(format!("{} cuts", plan.cuts.len())) } else { json!(plan.cuts) },
-               "timeout_configured": plan.timeout_configured, "client_silent_before_request": plan.timeout_before, "server_wrote": show(&o.out[..o.out.len().min(400)]), "handler_log": o.log})
+               "timeout_configured": plan.timeout_configured, "client_silent_before_request": plan.timeout_before, "client_pauses_inside_request_at_byte": plan.pause_at, "server_wrote": show(&o.out[..o.out.len().min(400)]), "handler_log": o.log})
     };
     // reference: walk the requests the server gets to see
     let n_sent = plan.timeout_before.unwrap_or(seq.len());
@@ -404,7 +407,7 @@ pub fn plans_for(seq: &[R], pairs: bool, full_single_cuts: bool, timeouts: bool)
         bounds.push(total);
     }
     let mut v = vec![];
-    let mk = |cuts: Vec<usize>| Plan { cuts, timeout_before: None, timeout_configured: false };
+    let mk = |cuts: Vec<usize>| Plan { cuts, timeout_before: None, timeout_configured: false, pause_at: None };
     v.push(mk(vec![]));
     if seq.len() > 1 {
         v.push(mk(bounds[..bounds.len() - 1].to_vec()));
@@ -453,10 +456,24 @@ pub fn plans_for(seq: &[R], pairs: bool, full_single_cuts: bool, timeouts: bool)
     }
     // connection timeout configured: no silence; silence before request k
     let per_req: Vec<usize> = bounds[..bounds.len() - 1].to_vec();
-    v.push(Plan { cuts: per_req.clone(), timeout_before: None, timeout_configured: true });
-    v.push(Plan { cuts: (1..total).collect(), timeout_before: None, timeout_configured: true });
+    v.push(Plan { cuts: per_req.clone(), timeout_before: None, timeout_configured: true, pause_at: None });
+    v.push(Plan { cuts: (1..total).collect(), timeout_before: None, timeout_configured: true, pause_at: None });
     for k in 0..=seq.len() {
-        v.push(Plan { cuts: per_req.clone(), timeout_before: Some(k), timeout_configured: true });
+        v.push(Plan { cuts: per_req.clone(), timeout_before: Some(k), timeout_configured: true, pause_at: None });
+    }
+    // a pause longer than the timeout strictly inside a request: after its first byte, inside the start line,
+    // at every line end of the head, between head and body, inside the body
+    let mut starts = vec![0usize];
+    starts.extend(bounds[..bounds.len() - 1].iter().copied());
+    for &c in &inner {
+        if bounds.contains(&c) || starts.contains(&c) {
+            continue;
+        }
+        let mut cuts = per_req.clone();
+        cuts.push(c);
+        cuts.sort();
+        cuts.dedup();
+        v.push(Plan { cuts, timeout_before: None, timeout_configured: true, pause_at: Some(c) });
     }
     v
 }
